@@ -15,7 +15,7 @@ RULE = ("instantiations Dq in {Ix0..Ix4 static, IxDyn rank 0..3} x D in {Ix1..Ix
         "runs interp_array, interp_array_into, and interp / interp_into / interp_scalar per element on the real code; oracle: shape = query "
         "shape ++ trailing dims and block k of the batch == single result of element k, exactly at Q and bit for bit at f64; every case also "
         "goes through the model correspondence. f64 groups with special data (inf, NaN, +-1e308 next to each other) and queries exactly on "
-        "knots compare every entry point incl. interp_into and interp_scalar bit for bit (all NaNs equal). non-trivial = batch with >= 2 elements or an empty axis")
+        "knots compare every entry point; three in ten of the 1-D groups contain one rejected element (outside the range, NaN, inf) at a random position: batch and single entry points must agree on the rejection. f64 special groups compare every entry point incl. interp_into and interp_scalar bit for bit (all NaNs equal). non-trivial = batch with >= 2 elements or an empty axis")
 PARTIAL = []
 ASSUMPTIONS = []
 
@@ -47,6 +47,7 @@ def build_groups(rng, tier):
     reps = 110 if tier == "quick" else 2500
     forced_n = 40 if tier == "quick" else 600
     for rep in range(reps + forced_n):
+        bad_pos = None
         forced = rep >= reps        # dedicated family: rank-1 f64 data with non-finite / huge samples, queries on the knots
         S = "F" if forced else rng.choice(["Q", "F"])
         special = forced or (S == "F" and rng.random() < 0.35)
@@ -64,8 +65,13 @@ def build_groups(rng, tier):
         qshape = qshape_for(rng, qrank, allow_zero)
         if forced:
             qshape[0] = 3
+        want_oob = (not forced) and (not two_d) and rng.random() < 0.3
+        if want_oob and rng.random() < 0.6:
+            qrank, qshape = 1, [3]      # the static rank-1 fast path with the rejected element in front of accepted ones
         dtag = "sta" if drank <= 6 and rng.random() < 0.7 else "dyn"
         qtag = "sta" if rng.random() < 0.7 else "dyn"
+        if want_oob and qshape == [3]:
+            qtag = "sta" if rng.random() < 0.8 else "dyn"
         if qtag == "dyn" and qrank > 3:
             qshape = qshape[:3]
         nq = gen.shape_size(qshape)
@@ -109,6 +115,12 @@ def build_groups(rng, tier):
                     flat = special_data(rng, flat)
                     qs = [rng.choice(xs) if rng.random() < 0.6 else q for q in qs]
             strat = ("spl", False, rng.choice(["nak", "nat", "cla"])) if spl else ("lin", False)
+            if want_oob and nq >= 1:
+                # one rejected element (out of range / NaN at f64) at a random position: every entry point must agree on the rejection
+                pos = rng.randrange(nq) if rng.random() < 0.4 else rng.randrange(max(1, nq - 1))
+                span = xs[-1] - xs[0]
+                qs[pos] = rng.choice([xs[-1] + span, xs[0] - span / 3] + ([float("nan"), float("inf")] if S == "F" else []))
+                bad_pos = pos
             mk = lambda e, dt=dtag: i1_line(S, xs, shape, flat, strat, e, dtag=dt)
             batch = mk(e_array(S, qshape, qs, qtag=qtag, lay=rng.choice(gen.LAYS_ND)))
             into = mk(e_ainto(S, qshape, qshape + trailing, qs, qtag=qtag, lay=rng.choice(gen.LAYS_ND), blay=rng.choice(gen.LAYS_ND)))
@@ -118,11 +130,11 @@ def build_groups(rng, tier):
                 singles += [(mk(e_scalar(S, q), "sta"), k_) for k_, q in enumerate(qs)][:3]
         want_shape = qshape + trailing
         base = len(cases)
-        cases.append({"line": batch, "meta": {"shape": want_shape, "nq": nq, "special": special}})
-        cases.append({"line": into, "meta": {"shape": want_shape, "nq": nq, "special": special}})
+        cases.append({"line": batch, "meta": {"shape": want_shape, "nq": nq, "special": special, "oob": bad_pos is not None}})
+        cases.append({"line": into, "meta": {"shape": want_shape, "nq": nq, "special": special, "oob": bad_pos is not None}})
         for s_, _k in singles:
-            cases.append({"line": s_, "meta": {"shape": None, "nq": 1, "special": special}})
-        groups.append((base, base + 1, [(base + 2 + j, k_) for j, (_s, k_) in enumerate(singles)], gen.shape_size(trailing), nq))
+            cases.append({"line": s_, "meta": {"shape": None, "nq": 1, "special": special, "oob": _k == bad_pos}})
+        groups.append((base, base + 1, [(base + 2 + j, k_) for j, (_s, k_) in enumerate(singles)], gen.shape_size(trailing), nq, bad_pos))
     return cases, groups
 
 
@@ -147,6 +159,8 @@ def nontrivial(case, res):
 
 def oracle(case, res):
     m = case["meta"]
+    if m.get("oob"):
+        return None if res.kind == "oob" else f"a rejected element (out of range / NaN) must reject the whole call with OutOfBounds, got {res.raw[:80]}"
     if res.kind != "ok":
         return f"in-range query must be answered, got {res.raw[:80]}"
     if res.extra:
@@ -163,8 +177,20 @@ def extra(rng, tier):
     lines = [c["line"] for c in cases]
     outs = vlib.run_impl_only(ID, lines, tag="agree")
     fails, checked = [], 0
-    for b, i, singles, L, nq in groups:
+    for b, i, singles, L, nq, bad_pos in groups:
         rb, ri = Result(outs[b]), Result(outs[i])
+        if bad_pos is not None:
+            # the element at bad_pos is rejected by the single-point entry points; so must the batch be, in both variants
+            for idx_, nm in ((b, "interp_array"), (i, "interp_array_into")):
+                if Result(outs[idx_]).kind != "oob":
+                    fails.append({"line": lines[idx_], "impl": outs[idx_][:200],
+                                  "required": f"{nm}: element #{bad_pos} is rejected by interp(), so the batch must return OutOfBounds"})
+            for s, idx in singles:
+                want_k = "oob" if idx == bad_pos else "ok"
+                if Result(outs[s]).kind != want_k:
+                    fails.append({"line": lines[s], "impl": outs[s][:200], "required": f"single query must be `{want_k}`"})
+            checked += 1
+            continue
         if rb.kind != "ok":
             fails.append({"line": lines[b], "impl": outs[b][:200], "required": "in-range batch must be answered"})
             continue
